@@ -90,6 +90,13 @@ def check(ctx):
     sn = ctx.fn("sample_non_uniform:sample_non_uniform")
     fact(ctx, R, sn, "one per solution", Facts(sn).returns(), ["[Solution(solution, 1) for solution in compute_solutions(cnf_file, support, count)]"], "each recorded solution is returned once")
 
+    # RandomGen returns distinct sequences only if distinct keys are distinct candidates (C06's clauses: counted space = drawn
+    # space) and distinct choices -- also the copies of a weighted level -- have distinct variables (C14's clauses)
+    if not ctx.is_control or getattr(ctx, "nested_ok", False):
+        from ..report import include
+        include(ctx, "C06")
+        include(ctx, "C14")
+
     mod = sys.modules[__name__]
     control(ctx, mod, "record only the preamble and round components",
             lambda s: variants.in_function(s, "sweetpea/_internal/sampling_strategy/random.py", "UCSolutionEnumerator.generate_random_samples",
